@@ -563,7 +563,12 @@ def h_transformer_step():
         prove("transformer_is_for_the_requested_pair", tr.src_spec == spec(n + 10) and tr.dst_spec == spec(d) and tr.always_xy == xy)
         tr2 = crs_mod._make_crs_transform(fresh._crs, other._crs, always_xy=not xy)
         prove("axis_order_flag_is_part_of_the_key", tr2.always_xy == (not xy) and tr2.src_spec == spec(n + 10))
-        del fresh, other, tr, tr2
+        # a user-defined look-alike: another definition for which the library's code lookup
+        # (70 % confidence) answers the code of a registered CRS -- it needs its own transformer
+        twin = CRS(f"LOOKALIKE:{3000 + e}")
+        tr3 = crs_mod._make_crs_transform(twin._crs, other._crs, always_xy=xy)
+        prove("look_alike_definition_gets_its_own_transformer", tr3.src_spec == f"LOOKALIKE:{3000 + e}" and tr3.dst_spec == spec(d))
+        del fresh, other, tr, tr2, twin, tr3
     finally:
         crs_mod._crs_cache.clear()
         crs_mod._make_crs_transform.cache.clear()
